@@ -104,6 +104,11 @@ func (s *State) ExpandMacros(program ast.Node) ast.Node {
 
 		evalEnv := extendMacroEnv(macro, args)
 		evalEnv.Context = s.Context // macro bodies run under the same deadline / cancellation as the rest.
+		// ... and with what any code needs: somewhere to print, the depth limit, a memo table
+		// (a body that printed or called a function crashed: nil writer / 'max depth 0 reached' / nil map).
+		evalEnv.Out, evalEnv.LogOut, evalEnv.NoLog = s.Out, s.LogOut, s.NoLog
+		evalEnv.MaxDepth = s.MaxDepth
+		evalEnv.cache = NewCache()
 
 		evaluated := evalEnv.Eval(macro.Body)
 
